@@ -747,6 +747,15 @@ example :
     (refresh s0 w 8).1.mConn = some ⟨0, false, .arr .master⟩ ∧
     (eventDuringRefresh s0 w (.switchMaster true 1) 4 8).1.mConn = some ⟨1, false, .arr .master⟩ := by decide
 
+/-- **foreign_event_ignored.** The handler compares the FIRST FIELD of the payload with the configured master
+    set (`m[0] == MasterSet`); an event of any other set — also one whose name merely starts with ours — is
+    `named = false` and changes nothing, sends nothing. -/
+theorem foreign_event_ignored (s : St) (w : World) (a : Addr) (fuel budget : Nat) :
+    onEvent s w (.switchMaster false a) fuel budget = (s, w, [], true) ∧
+    onEvent s w (.rebootMaster false a) fuel budget = (s, w, [], true) ∧
+    onEvent s w (.slaveChange false) fuel budget = (s, w, [], true) := by
+  refine ⟨rfl, rfl, rfl⟩
+
 /-! ### non-vacuity -/
 
 def demoWorld (roleN0 roleN1 : List RoleAns) (master : Addr) : World :=
